@@ -3,7 +3,9 @@ package props
 import (
 	"fmt"
 	"github.com/cosmos/cosmos-sdk/codec"
+	"github.com/jackalLabs/canine-chain/v4/app"
 	"sort"
+	"strconv"
 	"strings"
 
 	sdk "github.com/cosmos/cosmos-sdk/types"
@@ -49,6 +51,20 @@ func runC15(rc *RunCtx) {
 	if gov {
 		cfg.GovVotingSeconds = 10
 	}
+	// a provider listed in the genesis file without a collateral entry (valid genesis; such a provider locked nothing,
+	// so nothing is recorded for it and its shutdown returns nothing)
+	genesisProvider := ""
+	if rc.Chance(0.25) {
+		chain.SetBech32()
+		genesisProvider = sdk.AccAddress(chain.DeriveKey(rc.Seed, 4).PubKey().Address()).String()
+		cfg.Mutate = func(cdc codec.JSONCodec, gs app.GenesisState) {
+			var sg storagetypes.GenesisState
+			cdc.MustUnmarshalJSON(gs[storagetypes.ModuleName], &sg)
+			sg.ProvidersList = append(sg.ProvidersList, storagetypes.Providers{Address: genesisProvider, Ip: "https://genesis-provider.example.com", Totalspace: "1000000000000", BurnedContracts: "0", Creator: genesisProvider, KeybaseIdentity: "", AuthClaimers: []string{}})
+			gs[storagetypes.ModuleName] = cdc.MustMarshalJSON(&sg)
+		}
+		rc.Count("genesis_providers_without_collateral", 1)
+	}
 	c, err := chain.New(cfg)
 	if err != nil {
 		rc.Abort("init: " + err.Error())
@@ -62,6 +78,11 @@ func runC15(rc *RunCtx) {
 		if rc.Chance(0.2) {
 			upper[ac.Bech] = true
 		}
+	}
+	// the genesis record is filed under the canonical spelling: its holder keeps to that spelling (the chain files
+	// provider records under the spelling used, so one provider has to stick to one)
+	if genesisProvider != "" {
+		upper[genesisProvider] = false
 	}
 	spell := func(a string) string {
 		if upper[a] {
@@ -80,6 +101,13 @@ func runC15(rc *RunCtx) {
 	coll := map[string]int64{}      // recorded lock per provider
 	lockPrice := map[string]int64{} // == coll, kept separately for the signature only
 	isProv := map[string]bool{}
+	if genesisProvider != "" {
+		if genesisProvider != c.Accs[4].Bech {
+			rc.Abort("account derivation mismatch")
+			return
+		}
+		isProv[genesisProvider] = true
+	}
 	players := []int{1, 2, 3, 4}
 	who := func(a string) string {
 		for i, ac := range c.Accs {
@@ -93,13 +121,28 @@ func runC15(rc *RunCtx) {
 		return a
 	}
 
+	// the current collateral price is the value in the parameter store (what governance set); the Params query is
+	// expected to show the same, a disagreement is counted, not judged
 	curPrice := func() (int64, bool) {
+		raw, ok := c.KV("params")["storage/CollateralPrice"]
+		if !ok {
+			rc.Abort("no storage/CollateralPrice in the parameter store")
+			return 0, false
+		}
+		v, perr := strconv.ParseInt(strings.Trim(string(raw), `"`), 10, 64)
+		if perr != nil {
+			rc.Abort("parameter store holds " + string(raw) + " for storage/CollateralPrice")
+			return 0, false
+		}
 		var pr storagetypes.QueryParamsResponse
 		if err := c.GRPC("/canine_chain.storage.Query/Params", &storagetypes.QueryParams{}, &pr); err != nil {
 			rc.Abort("Params query: " + err.Error())
 			return 0, false
 		}
-		return pr.Params.CollateralPrice, true
+		if pr.Params.CollateralPrice != v {
+			rc.Count("params_query_differs_from_parameter_store", 1)
+		}
+		return v, true
 	}
 
 	// invariant + record agreement, evaluated after every transaction
